@@ -161,6 +161,21 @@ fn check_backend<F: Backend>(
                 Op::Binary(o, a, c) => (map_bin(o).name(), ivs[idx[&a]], ivs[idx[&c]], true),
                 _ => continue,
             };
+            // an interval with exactly one NaN bound is neither "the NaN
+            // interval" nor an enclosure of anything, and it poisons what is
+            // computed from it (candidate-based reductions ignore NaN
+            // candidates): reported where it first appears
+            if i_n.lower().is_nan() != i_n.upper().is_nan() {
+                let first = !(ia.lower().is_nan() != ia.upper().is_nan()) && !(is_bin && ib.lower().is_nan() != ib.upper().is_nan());
+                if first {
+                    return Err(Viol {
+                        sig: format!("local:{name}:{opname}:half_nan_interval"),
+                        msg: format!("{name}: {opname} returned {i_n:?} (one bound NaN) for operand interval(s) {ia:?}{}", if is_bin { format!(", {ib:?}") } else { String::new() }),
+                        detail: json!({"op": opname, "operand_interval": format!("{ia:?}"), "result_interval": format!("{i_n:?}"),
+                            "box_by_var_slot": bx.iter().map(|(l, u)| format!("[{l:?}, {u:?}]")).collect::<Vec<_>>()}),
+                    });
+                }
+            }
             if ia.has_nan() || (is_bin && ib.has_nan()) {
                 st.inc("local_skipped_nan_operand_interval");
                 continue;
